@@ -983,7 +983,7 @@ def slice_iter_mut_next(ctx):
     return slice_iter_next(ctx)
 
 
-def _explicit_elems(ctx, itv):
+def _explicit_elems(ctx, itv, by_value=False):
     """element references of an iterator over an explicit list: [(Ref)]"""
     ex, st = ctx.ex, ctx.st
     it = ex.deref1(st, itv) if isinstance(itv, Ref) else itv
@@ -995,6 +995,12 @@ def _explicit_elems(ctx, itv):
             return None
         return [Ref(st.alloc(SeqV.from_items(src.items[i:i + n], src.elem_ty, 'slice')), ())
                 for i in range(start, len(src.items) - n + 1)]
+    if by_value and isinstance(it, Agg) and it.name == 'vec::IntoIter':
+        # into_iter() over an explicit list: the items themselves, by value, from the cursor on
+        seq, pos = it.fields[0], concrete(it.fields[1].t)
+        if not (isinstance(seq, SeqV) and seq.items is not None) or pos is None:
+            return None
+        return list(seq.items[pos:])
     if not (isinstance(it, Agg) and it.name == 'slice::Iter'):
         return None
     src, loc = seq_loc(ex, st, it.fields[0])
@@ -1010,7 +1016,7 @@ def _explicit_elems(ctx, itv):
 def iter_try_for_each(ctx):
     """apply the closure to each element in order; stop at the first Err (std semantics), all effects kept"""
     ex, st = ctx.ex, ctx.st
-    elems = _explicit_elems(ctx, ctx.args[0])
+    elems = _explicit_elems(ctx, ctx.args[0], by_value=True)
     clo = ctx.args[1]
     body = ex.db.closure_fn(clo.name) if isinstance(clo, Agg) else None
     if elems is None or body is None:
@@ -1051,7 +1057,7 @@ def iter_try_for_each(ctx):
 def iter_for_each(ctx):
     """apply the closure to each element of an explicit list in order, all effects kept"""
     ex, st = ctx.ex, ctx.st
-    elems = _explicit_elems(ctx, ctx.args[0])
+    elems = _explicit_elems(ctx, ctx.args[0], by_value=True)
     clo = ctx.args[1]
     if not isinstance(clo, Agg):
         return NotImplemented
@@ -1682,6 +1688,22 @@ def result_map(ctx):
             errv = Opaque('error', 'err')
         outs.append((st, mk_result(ex, err=errv)))
     return outs
+
+
+@contract(r'^<([iu](?:8|16|32|64|128|size)) as (?:std::convert::)?(?:From|Into)<([iu](?:8|16|32|64|128|size))>>::(?:from|into)$')
+def int_from_into(ctx):
+    """lossless integer conversions (`usize::from(u8)`, `u16.into()` ...): zero- or sign-extension of the source"""
+    from engine import INT_TYPES
+    m = re.match(r'^<([iu]\w+) as (?:std::convert::)?(From|Into)<([iu]\w+)>>', ctx.callee)
+    src, dst = (m.group(3), m.group(1)) if m.group(2) == 'From' else (m.group(1), m.group(3))
+    a = ctx.args[0]
+    if not isinstance(a, Int) or src not in INT_TYPES or dst not in INT_TYPES:
+        return NotImplemented
+    (sb, ss), (db_, ds) = INT_TYPES[src], INT_TYPES[dst]
+    if db_ < sb or a.bits != sb:
+        return NotImplemented
+    t = a.t if db_ == sb else (z3.SignExt(db_ - sb, a.t) if ss else z3.ZeroExt(db_ - sb, a.t))
+    return Int(simp(t), db_, ds)
 
 
 @contract(r'^<([iu](?:8|16|32|64|128|size)) as (?:std::convert::)?TryInto<([iu](?:8|16|32|64|128|size))>>::try_into$'
